@@ -295,9 +295,11 @@ def judge_geo2(col, site, t, out, geo, rep):
         if got.shape != exp.shape or not np.allclose(got, exp, rtol=0, atol=1e-12):
             bad = ("mapping", f"mapped values {got.tolist()} expected {exp.tolist()}")
         else:
-            sign = geo.sens_sign.to_numpy(dtype=float)
-            shown = got * sign
-            if not np.allclose(shown, np.array(out["geo"]["shown"], dtype=float), rtol=0, atol=1e-12):
+            sign = geo.sens_sign.to_numpy(dtype=float) if geo.sens_sign is not None else None
+            shown = got * sign if sign is not None and sign.shape == got.shape else None
+            if shown is None:
+                bad = ("sign", f"no usable sign table in the geometry ({None if sign is None else sign.shape}); mapped values have shape {got.shape}")
+            elif not np.allclose(shown, np.array(out["geo"]["shown"], dtype=float), rtol=0, atol=1e-12):
                 bad = ("sign", f"displayed displacement {shown.tolist()} expected {out['geo']['shown']}")
         if bad is None and "sensors lines" in t["opt"]:
             if geo.sens_lines is None or np.asarray(geo.sens_lines).tolist() != [list(x) for x in out["geo"]["lines0"]]:
